@@ -17,6 +17,10 @@ package hclwrite
 //@ func format(tokens Tokens)
 //@   requires nonnil: nn(tokens)
 //@   modifies allof(Token.SpacesBefore)
+// the alignment pass measures columns, i.e. it reads the spacing the other two passes decide:
+// it runs last, on the very lines they worked on (otherwise formatting twice gives a different result)
+//@   guard-call indentfirst: "formatSpaces" sameslice(arg(0), lastarg(formatIndent, 0))
+//@   guard-call cellslast:   "formatCells" sameslice(arg(0), lastarg(formatSpaces, 0))
 
 // a token ends a line if it is a newline or a single-line comment (which carries its newline)
 //@ spec isnl(t) = t.Type == hclsyntax.TokenNewline || (t.Type == hclsyntax.TokenComment && len(t.Bytes) > 0 && t.Bytes[len(t.Bytes)-1] == 10)
@@ -103,6 +107,12 @@ package hclwrite
 //@   pure
 //@   ensures words: (wordlike(subject) && wordlike(after)) ==> r
 //@   ensures eol: (after.Type == hclsyntax.TokenNewline || after.Type == hclsyntax.TokenNil) ==> !r
+// "decodes to the same values": a blank next to template content would become part of the string, so
+// none is put after an opening quote / heredoc marker or a literal piece, nor before a literal piece
+// or the closing quote / marker (a comma never neighbours template content in valid source)
+//@ spec tplOpen(t) = t.Type == hclsyntax.TokenOQuote || t.Type == hclsyntax.TokenOHeredoc || t.Type == hclsyntax.TokenQuotedLit || t.Type == hclsyntax.TokenStringLit
+//@ spec tplClose(t) = t.Type == hclsyntax.TokenCQuote || t.Type == hclsyntax.TokenCHeredoc || t.Type == hclsyntax.TokenQuotedLit || t.Type == hclsyntax.TokenStringLit
+//@   ensures templ: ((tplOpen(subject) || tplClose(after)) && subject.Type != hclsyntax.TokenComma) ==> !r
 
 // Serialising: token by token, SpacesBefore blanks (none if the count is not
 // positive) and then the token's bytes, nothing else; the byte count returned
